@@ -16,24 +16,63 @@ def main():
     patched = patch_pulser_observable()
     if patched:
         print("harness: pulser Observable.__init__ wrapped to supply default_aggregation_method (C31)")
+    if "MPSConfig.__init__" in ob:
+        import warnings
+        warnings.simplefilter("ignore")
+        from emu_mps import MPSConfig
+        bad = []
+        for kw in (dict(precision=1e-10), dict(backend_options={"precision": 1e-10}),
+                   dict(backend_options={"extra_krylov_tolerance": 1e-9}),
+                   dict(precision=1e-9, backend_options={"extra_krylov_tolerance": 1e-6})):
+            try:
+                c = MPSConfig(observables=[], log_level=50, **kw)
+            except Exception as e:
+                print(f"  {kw}: {type(e).__name__}")
+                continue
+            eff = c.precision * c.extra_krylov_tolerance
+            print(f"  {kw}: precision={c.precision} extra={c.extra_krylov_tolerance} effective={eff}")
+            if eff < 1e-12 * (1 - 1e-9):
+                bad.append((kw, eff))
+        for kw in (dict(autosave_dt=5), dict(backend_options={"autosave_dt": 5})):
+            try:
+                c = MPSConfig(observables=[], log_level=50, **kw)
+                bad.append((kw, f"accepted autosave_dt={c.autosave_dt}"))
+            except AssertionError:
+                pass
+        if bad:
+            print(f"REPRODUCED: constructed configuration violates a safeguard: {bad}")
+            return 1
+        print("NOT-REPRODUCED: Krylov floor and autosave floor hold for keyword and backend_options forms")
+        return 0
     if "create_impl" in ob or "DMRGBackendImpl" in ob:
         import pulser
         from emu_mps import MPSConfig
         from emu_mps.solver import Solver
         from emu_mps.mps_backend_impl import create_impl
-        nm = pulser.NoiseModel(relaxation_rate=0.1)
-        cfg = MPSConfig(solver=Solver.DMRG, noise_model=nm, observables=[])
         L = torch.zeros(2, 2, dtype=torch.complex128)
         L[0, 1] = 0.3
-        data = make_sequence_data(3, 2, lindblad_ops=[L])
-        try:
-            impl = create_impl(data, cfg)
-        except NotImplementedError as e:
-            print("NOT-REPRODUCED: DMRG + relaxation noise is refused:", e)
-            return 0
-        print(f"REPRODUCED: create_impl(solver=DMRG, noise_types={nm.noise_types}) returned "
-              f"{type(impl).__name__} instead of refusing")
-        return 1
+        families = [(dict(relaxation_rate=0.1), [L], 0.0), (dict(dephasing_rate=0.1), [L], 0.0),
+                    (dict(state_prep_error=0.1), [], 0.1), (dict(p_false_pos=0.1, p_false_neg=0.1), [], 0.0),
+                    (dict(amp_sigma=0.1, runs=1, samples_per_run=1), [], 0.0),
+                    (dict(temperature=50.0, runs=1, samples_per_run=1), [], 0.0)]
+        for kw, lops, spe in families:
+            try:
+                nm = pulser.NoiseModel(**kw)
+            except Exception as e:
+                print(f"  noise model {kw}: cannot be built here ({type(e).__name__})")
+                continue
+            cfg = MPSConfig(solver=Solver.DMRG, noise_model=nm, observables=[], log_level=50)
+            data = make_sequence_data(3, 2, lindblad_ops=lops, state_prep_error=spe)
+            try:
+                impl = create_impl(data, cfg)
+            except NotImplementedError:
+                print(f"  DMRG + {nm.noise_types}: refused")
+                continue
+            print(f"REPRODUCED: create_impl(solver=DMRG, noise_types={nm.noise_types}) returned "
+                  f"{type(impl).__name__} instead of refusing")
+            return 1
+        print("NOT-REPRODUCED: DMRG refused every noise family tried")
+        return 0
     if "_extract_omega_delta_phi[bases=" in ob:
         from emu_base.pulser_adapter import _extract_omega_delta_phi
         import itertools
